@@ -209,6 +209,16 @@ func (rm *RegistrationManager) ingestRegistration(reg *DecoyRegistration) {
 	// hostnames as coverts anyways.
 	reg.Covert = covert
 
+	// A registration from the local detector whose phantom is blocklisted on this station can only
+	// be passed on to peer stations (see below). With sharing disabled nothing can follow from a
+	// liveness probe, so do not probe an address the operator blocklisted.
+	if *reg.RegistrationSource == pb.RegistrationSource_Detector && !rm.EnableShareOverAPI && rm.IsBlocklistedPhantom(reg.PhantomIp) {
+		logger.Warnf("ignoring registration with blocklisted phantom: %s %v", reg.IDString(), reg.PhantomIp)
+		Stat().AddErrReg()
+		rm.AddBlocklistedPhantomReg()
+		return
+	}
+
 	// Perform liveness test IFF not done by other station or v6 (v6 should
 	// never be live)
 	if !reg.PreScanned() && reg.PhantomIp.To4() != nil {
